@@ -23,21 +23,60 @@ type monitor interface {
 	kind() string
 	value() int
 	waiters() int
-	// call returns the function executing op on the real object; res receives PopOrWait/Pop results
-	call(op string, arg int, res *[]byte, cb *[]byte) func()
+	// call returns the function executing op on the real object; res receives PopOrWait/Pop results, out the
+	// popped elements (Stack) or the return values of Set/Update (Counter)
+	call(op string, arg int, res *[]byte, cb *[]byte, out *[]int) func()
 	ops() []string
+	// extra is the data part of the observation that is not per goroutine (Counter: the subscriber's notifications)
+	extra() string
 }
 
 type counterMon struct {
 	c      *syncutils.Counter
 	ci, cd *sync.Cond
+	logMu  sync.Mutex
+	log    []string // notifications "old>new" in the order the subscribers received them
+	bad    string   // first disagreement between the two subscribers
 }
 
 func newCounterMon(v int) *counterMon {
 	c := syncutils.NewCounter()
 	c.Set(v)
+	m := &counterMon{c: c, ci: *(**sync.Cond)(fieldPtr(c, "valueIncreasedCond")), cd: *(**sync.Cond)(fieldPtr(c, "valueDecreasedCond"))}
+	// two subscriptions (the second one with two callbacks): all of them see every change, in subscription order
+	var order []byte
+	c.Subscribe(func(o, n int) {
+		m.logMu.Lock()
+		m.log = append(m.log, fmt.Sprintf("%d>%d", o, n))
+		order = append(order[:0], 'a')
+		m.logMu.Unlock()
+	})
+	second := func(tag byte) func(o, n int) {
+		return func(o, n int) {
+			m.logMu.Lock()
+			order = append(order, tag)
+			if last := m.log[len(m.log)-1]; last != fmt.Sprintf("%d>%d", o, n) && m.bad == "" {
+				m.bad = fmt.Sprintf("subscriber %c saw %d>%d, the first subscriber %s", tag, o, n, last)
+			}
+			if want := map[byte]string{'b': "ab", 'c': "abc"}[tag]; string(order) != want && m.bad == "" {
+				m.bad = fmt.Sprintf("subscribers called in order %s, want prefix %s", order, want)
+			}
+			m.logMu.Unlock()
+		}
+	}
+	c.Subscribe(second('b'), second('c'))
 
-	return &counterMon{c: c, ci: *(**sync.Cond)(fieldPtr(c, "valueIncreasedCond")), cd: *(**sync.Cond)(fieldPtr(c, "valueDecreasedCond"))}
+	return m
+}
+
+func (m *counterMon) extra() string {
+	m.logMu.Lock()
+	defer m.logMu.Unlock()
+	if len(m.log) == 0 {
+		return "-"
+	}
+
+	return strings.Join(m.log, ",")
 }
 
 func (m *counterMon) kind() string { return "counter" }
@@ -46,12 +85,19 @@ func (m *counterMon) waiters() int { return condWaiters(m.ci) + condWaiters(m.cd
 func (m *counterMon) ops() []string {
 	return []string{"add", "add", "set", "below", "below", "above", "above"}
 }
-func (m *counterMon) call(op string, arg int, _ *[]byte, _ *[]byte) func() {
+func (m *counterMon) call(op string, arg int, _ *[]byte, _ *[]byte, out *[]int) func() {
 	switch op {
 	case "add":
-		return func() { m.c.Update(arg) }
+		switch arg {
+		case 1:
+			return func() { *out = append(*out, m.c.Increase()) } // Increase is Update(1)
+		case -1:
+			return func() { *out = append(*out, m.c.Decrease()) }
+		}
+
+		return func() { *out = append(*out, m.c.Update(arg)) }
 	case "set":
-		return func() { m.c.Set(arg) }
+		return func() { *out = append(*out, m.c.Set(arg)) }
 	case "below":
 		if arg == 1 {
 			return m.c.WaitIsZero // WaitIsZero is WaitIsBelow(1)
@@ -81,13 +127,14 @@ func newStackMon(v int) *stackMon {
 	return m
 }
 
-func (m *stackMon) kind() string { return "stack" }
+func (m *stackMon) kind() string  { return "stack" }
+func (m *stackMon) extra() string { return "" }
 func (m *stackMon) value() int   { return m.s.Size() }
 func (m *stackMon) waiters() int { return condWaiters(m.ca) + condWaiters(m.cr) }
 func (m *stackMon) ops() []string {
 	return []string{"add", "add", "add", "trypop", "poporwait", "poporwait", "below", "above", "shutdown"}
 }
-func (m *stackMon) call(op string, arg int, res *[]byte, cb *[]byte) func() {
+func (m *stackMon) call(op string, arg int, res *[]byte, cb *[]byte, out *[]int) func() {
 	switch op {
 	case "add":
 		x := m.next
@@ -96,17 +143,23 @@ func (m *stackMon) call(op string, arg int, res *[]byte, cb *[]byte) func() {
 		return func() { m.s.Push(x) }
 	case "trypop":
 		return func() {
-			_, ok := m.s.Pop()
+			x, ok := m.s.Pop()
 			*res = append(*res, b01(ok))
+			if ok {
+				*out = append(*out, x)
+			}
 		}
 	case "poporwait":
 		return func() {
-			_, ok := m.s.PopOrWait(func() bool {
+			x, ok := m.s.PopOrWait(func() bool {
 				*cb = append(*cb, '1') // the answers are part of the observation the model has to explain
 
 				return true
 			})
 			*res = append(*res, b01(ok))
+			if ok {
+				*out = append(*out, x)
+			}
 		}
 	case "below":
 		if arg == 1 {
@@ -137,6 +190,7 @@ type wmWorld struct {
 	pending []*arrival
 	res     [][]byte
 	cb      [][]byte // answers given by each goroutine's PopOrWait wait condition
+	out     [][]int  // per goroutine: elements taken from the Stack / return values of Counter.Set and Update
 	blocked bool
 	dead    bool
 }
@@ -167,7 +221,35 @@ func (w *wmWorld) obs() string {
 		}
 	}
 
-	return fmt.Sprintf("%s %d %s %s", statuses(w.actors), w.m.value(), strings.Join(rs, " "), strings.Join(cs, " "))
+	if w.out == nil {
+		w.out = make([][]int, len(w.actors))
+	}
+	os := make([]string, len(w.actors))
+	for i := range w.actors {
+		os[i] = "-"
+		if len(w.out[i]) > 0 {
+			var b []string
+			for _, x := range w.out[i] {
+				b = append(b, strconv.Itoa(x))
+			}
+			os[i] = strings.Join(b, ",")
+		}
+	}
+	data := strings.Join(os, " ")
+	if e := w.m.extra(); e != "" {
+		data += " | " + e
+	}
+	if cm, ok := w.m.(*counterMon); ok {
+		cm.logMu.Lock()
+		bad := cm.bad
+		cm.bad = ""
+		cm.logMu.Unlock()
+		if bad != "" {
+			w.r.Fail("subscribers", "Counter: "+bad, sig("api", "Counter.Subscribe", "oracle", "subscriber-order"))
+		}
+	}
+
+	return fmt.Sprintf("%s %d %s %s | %s", statuses(w.actors), w.m.value(), strings.Join(rs, " "), strings.Join(cs, " "), data)
 }
 
 func opLine(a arrival) string {
@@ -182,7 +264,10 @@ func opLine(a arrival) string {
 func (w *wmWorld) arrive(a arrival) string {
 	arg, _ := strconv.Atoi(a.arg)
 	before := w.m.value()
-	w.actors[a.t].call(w.m.call(a.op, arg, &w.res[a.t], &w.cb[a.t]))
+	if w.out == nil {
+		w.out = make([][]int, len(w.actors))
+	}
+	w.actors[a.t].call(w.m.call(a.op, arg, &w.res[a.t], &w.cb[a.t], &w.out[a.t]))
 	aa := a
 	w.pending[a.t] = &aa
 	api := w.m.kind() + "." + a.op
@@ -441,6 +526,9 @@ func mutexWaiters(rw *sync.RWMutex) int {
 // as a waiter, so PopOrWait is woken, re-evaluates the condition and returns false.
 func (w *wmWorld) arriveGap(a, b int) string {
 	st := w.m.(*stackMon)
+	if w.out == nil {
+		w.out = make([][]int, len(w.actors))
+	}
 	rw := (*sync.RWMutex)(fieldPtr(st.s, "mutex"))
 	var shut atomic.Bool
 	bDone := make(chan struct{})
@@ -478,8 +566,11 @@ func (w *wmWorld) arriveGap(a, b int) string {
 		return true
 	}
 	w.actors[a].call(func() {
-		_, ok := st.s.PopOrWait(cond)
+		x, ok := st.s.PopOrWait(cond)
 		w.res[a] = append(w.res[a], b01(ok))
+		if ok {
+			w.out[a] = append(w.out[a], x)
+		}
 	})
 	pa := arrival{t: a, op: "poporwait"}
 	w.pending[a] = &pa
